@@ -55,7 +55,8 @@ class LotBase(Adapter):
 class WassersteinExact(LotBase):
     name = "WassersteinVectorizer[LOT_exact,spmatrix]"
     knobs = [dict(memory_size="1k"), dict(memory_size="2G"), dict(memory_size="64k")]
-    configs = [dict(), dict(metric="euclidean"), dict(memory_size="1k"), dict(metric="euclidean", memory_size="1k", reference_size=2)]
+    configs = [dict(), dict(metric="euclidean"), dict(memory_size="1k"), dict(metric="euclidean", memory_size="1k", reference_size=2),
+               dict(max_distribution_size=3), dict(max_distribution_size=2, metric="euclidean", memory_size="1k")]
 
 
 class WassersteinSinkhornMethod(LotBase):
@@ -82,7 +83,8 @@ class WassersteinLil(LotBase):
     name = "WassersteinVectorizer[LOT_exact,lil]"
     base_cfg = dict(input_method="lil")
     knobs = [dict(memory_size="1k"), dict(memory_size="2G")]
-    configs = [dict(), dict(metric="euclidean"), dict(memory_size="1k"), dict(memory_size="1k", reference_size=17)]
+    configs = [dict(), dict(metric="euclidean"), dict(memory_size="1k"), dict(memory_size="1k", reference_size=17),
+               dict(max_distribution_size=3)]
 
     def batch(self, ids, fitting=False):
         ids = self._ids(ids, fitting)
